@@ -420,6 +420,7 @@ impl Worker {
         let mut remaining = cases;
         let mut round = 0u64;
         let mut seen_sigs: HashSet<String> = HashSet::new();
+        let mut repeats = 0u64;
         let check = RefCell::new(check);
         while remaining > 0 && round < 4 {
             let seed = mix(self.seed, self.id, sub, self.shard) ^ round.wrapping_mul(0x9E37_79B9_7F4A_7C15);
@@ -440,10 +441,18 @@ impl Worker {
                 ran: u64,
                 failing: Option<String>,
                 seen: &'w mut HashSet<String>,
+                /// failures with a signature already reported in this sub-run
+                repeats: u64,
             }
-            let st = RefCell::new(St { w: self, info: &mut info, ran: 0, failing: None, seen: &mut seen_sigs });
+            let st = RefCell::new(St { w: self, info: &mut info, ran: 0, failing: None, seen: &mut seen_sigs, repeats });
             let result = runner.run(&strat, |choices| {
                 let mut s = st.borrow_mut();
+                if s.repeats >= 40 && s.failing.is_none() {
+                    // the violations already reported keep recurring: the rest of this sub-run's
+                    // budget is given up (such cases can be slow, e.g. a matcher running into its
+                    // limit each time) - the cases skipped are not counted as run
+                    return Ok(());
+                }
                 let mut g = Gen::new(&choices);
                 let case = gen(&mut g);
                 let shrinking = s.failing.is_some();
@@ -473,6 +482,11 @@ impl Worker {
                                 s.ran += 1;
                                 if s.seen.contains(&v.signature) {
                                     // already reported in an earlier round: keep searching
+                                    s.repeats += 1;
+                                    if s.repeats == 40 {
+                                        let s2 = &mut *s;
+                                        s2.w.note(format!("{}: 40 more failures with signatures already reported; the rest of the sub-run is skipped", s2.info.name));
+                                    }
                                     return Ok(());
                                 }
                                 s.failing = Some(v.signature.clone());
@@ -487,6 +501,7 @@ impl Worker {
             });
             let st = st.into_inner();
             let ran = st.ran;
+            repeats = st.repeats;
             match result {
                 Ok(()) => break,
                 Err(TestError::Fail(_, minimal)) => {
